@@ -35,9 +35,10 @@ const int kTable = 16;   // the -! table: 2 command lines x 8 sets of driver-spe
 const int kChkAll = 1000;  // sol:chk:fail with a violating answer under every code 0..999
 const int kRepFailSites = 6; // every code x a solver query failing while the results are collected (IIS finder, rays, basis, sensitivity)
 const char* kRepFailWhere[kRepFailSites] = {"ComputeIIS", "GetIIS", "Ray", "DRay", "GetBasis", "GetSensRangesPresolved"};
+const int kPool = 1200;     // every code with a solution pool (sol:stub, two alternative solutions written after the status is known)
 const int kSession = 200;  // one solver instance, several solve + report rounds through the AMPLS C API (standard / named .sol files)
 uint64_t enumerated(const std::string&) {
-  return (uint64_t)kCodes * kPatterns * kModes + kTable + (uint64_t)kAbortCodes * kAbortSites * kModes + kChkFail + (uint64_t)kCodes * kRound + kChkAll + kSession + (uint64_t)kCodes * kRepFailSites;
+  return (uint64_t)kCodes * kPatterns * kModes + kTable + (uint64_t)kAbortCodes * kAbortSites * kModes + kChkFail + (uint64_t)kCodes * kRound + kChkAll + kSession + (uint64_t)kCodes * kRepFailSites + kPool;
 }
 
 sim::Json generate(const std::string& tier, uint64_t seed, uint64_t index) {
@@ -45,7 +46,18 @@ sim::Json generate(const std::string& tier, uint64_t seed, uint64_t index) {
   uint64_t n = (uint64_t)kCodes * kPatterns * kModes;
   const uint64_t nab = (uint64_t)kAbortCodes * kAbortSites * kModes;
   const uint64_t old_total = n + kTable + nab + kChkFail + (uint64_t)kCodes * kRound;
-  if (index >= old_total + kChkAll + kSession + (uint64_t)kCodes * kRepFailSites) return sim::Json();   // finite space, enumerated completely
+  if (index >= old_total + kChkAll + kSession + (uint64_t)kCodes * kRepFailSites + kPool) return sim::Json();   // finite space, enumerated completely
+  if (index >= old_total + kChkAll + kSession + (uint64_t)kCodes * kRepFailSites) {
+    int c = (int)(index - (old_total + kChkAll + kSession + (uint64_t)kCodes * kRepFailSites)) - 200;
+    sim::Json sc = base_scenario(tiny_mip_nl(), true);
+    sc.ref("argv").push("sol:stub=@/pool"); sc.ref("argv").push("sol:chk:mode=0");
+    sim::Json& s = sc.ref("script");
+    s.set("status", c); s.set("status_msg", "status-msg-for-code");
+    s.set("primal", "full"); s.set("dual", "none"); s.set("objvals", 1); s.set("solve_iters", 1);
+    s.set("n_interm", 2); s.set("interm_after_status", 1);
+    sc.set("pool", true); sc.set("code", c); sc.set("mode", 0);
+    return sc;
+  }
   if (index >= old_total + kChkAll + kSession) {
     // the solver's own IIS / ray / basis / sensitivity routine fails (they do, e.g. "cannot compute IIS on a feasible model"):
     // a lost suffix is a warning, the code the backend reported is still the code of the .sol
@@ -239,6 +251,24 @@ void judge(const sim::Json& sc, const RunRecord& rec, sim::RunResult& r) {
     if (rec.rounds.size() != sc["session"]["rounds"].size()) flag("SESSION_INCOMPLETE", "rounds", "only " + std::to_string(rec.rounds.size()) + " rounds ran; " + rec.escaped_what);
     r.stats.set("session_runs", 1); r.stats.set("session_rounds", (long)rec.rounds.size());
     r.trace_sig = sim::fnv1a(std::string("session") + std::to_string(rec.rounds.size()), r.trace_sig);
+  } else if (sc["pool"].as_bool()) {
+    // alternative-solution files carry the code the backend had reported when they were written
+    int c = (int)sc["code"].as_int();
+    std::string rk = range_key(c) + "/pool";
+    int seen = 0;
+    for (auto& kv : rec.files_after) {
+      if (kv.first.compare(0, 4, "pool") != 0 || kv.first.size() < 8 || kv.first.compare(kv.first.size() - 4, 4, ".sol") != 0) continue;
+      ++seen;
+      oracle::SolFile sf = oracle::parse_sol(kv.second);
+      if (!sf.ok) flag("MALFORMED_SOL", rk, kv.first + ": " + sf.error);
+      else if (sf.code != c) flag("CODE_CHANGED", rk, "backend reported " + std::to_string(c) + " and then handed out its pool solutions: " + kv.first + " says " + std::to_string(sf.code));
+    }
+    auto it = rec.files_after.find("stub.sol");
+    if (it == rec.files_after.end()) flag("NO_SOL", rk, "no stub.sol written; stderr: " + rec.err.substr(0, 300));
+    else { oracle::SolFile sf = oracle::parse_sol(it->second); if (sf.ok && sf.code != c) flag("CODE_CHANGED", rk, "backend reported " + std::to_string(c) + ", .sol says " + std::to_string(sf.code)); }
+    r.stats.set("pool_runs", 1); r.stats.set("pool_files", seen);
+    long k = (long)c * 64 + 41 + seen;
+    r.trace_sig = sim::fnv1a(&k, sizeof k, r.trace_sig);
   } else if (sc["repfail"].as_bool()) {
     int c = (int)sc["code"].as_int();
     std::string where = kRepFailWhere[sc["site"].as_int()];
